@@ -17,10 +17,10 @@ RULE = ('case = one operation of the real Term/Type API on generated well-typed 
 ASSUMPTIONS = ['reference operations in vf/shadow.py (textbook de Bruijn) are the ground truth for syntax',
                'denotation checked in finite models with type-variable domains <= 2 (3 when small)',
                'id recycling is probabilistic: evidence counter churn_comparisons says how many were tried']
-REQUIRED = {'quick': {'subobject_hash_checks': 5000, 'eq_checks': 5000, 'hash_checks': 2000, 'op:subst': 500, 'op:subst_type': 500, 'op:subst_bound': 500,
+REQUIRED = {'quick': {'subst_with_type_instantiation': 1500, 'subobject_hash_checks': 5000, 'eq_checks': 5000, 'hash_checks': 2000, 'op:subst': 500, 'op:subst_type': 500, 'op:subst_bound': 500,
                       'op:beta_norm': 500, 'op:abstract_over': 500, 'op:incr_boundvars': 300, 'sem_checks': 300,
                       'churn_comparisons': 100000, 'order_triples': 1000, 'type_ops': 1000, 'shared_open_object_two_depths': 120, 'shared_object_abstracted_at_two_depths': 300},
-            'thorough': {'subobject_hash_checks': 100000, 'eq_checks': 100000, 'hash_checks': 40000, 'op:subst': 10000, 'op:subst_type': 10000,
+            'thorough': {'subst_with_type_instantiation': 30000, 'subobject_hash_checks': 100000, 'eq_checks': 100000, 'hash_checks': 40000, 'op:subst': 10000, 'op:subst_type': 10000,
                          'op:subst_bound': 10000, 'op:beta_norm': 10000, 'op:abstract_over': 10000,
                          'op:incr_boundvars': 6000, 'sem_checks': 6000, 'churn_comparisons': 3000000,
                          'order_triples': 20000, 'type_ops': 20000, 'shared_open_object_two_depths': 3000, 'shared_object_abstracted_at_two_depths': 3000}}
@@ -278,6 +278,39 @@ def one_round(ctx, rng):
     except Exception as e:
         ctx.count('op_raised:subst:' + type(e).__name__)
     ctx.case(('subst', S.alpha(s), repr(sorted(sv_inst.items()))), nontrivial=nt)
+    # ---- B2b. subst that has to instantiate TYPE variables: the schematic type variable occurs in the types of
+    #      schematic term variables (possibly only there), some of which are instantiated at a concrete type and
+    #      some not - the remaining ones must come out at the instantiated type as well
+    a_ = ('stv', rng.choice(['a', 'b']))
+    T0 = g.rand_type()
+    B_ = S.BOOL
+    Pv, Qv = ('svar', 'P', S.fun(a_, B_)), ('svar', 'Q', S.fun(a_, B_))
+    xv, yv, fv = ('svar', 'x', a_), ('svar', 'y', a_), ('svar', 'f', S.fun(a_, a_))
+    forms = [('comb', Pv, xv), ('comb', Pv, ('comb', fv, xv)),
+             S.mk_comb(('const', 'conj', S.funs(B_, B_, B_)), ('comb', Pv, xv), ('comb', Qv, yv)),
+             S.mk_comb(('const', 'implies', S.funs(B_, B_, B_)), ('comb', Pv, xv), ('comb', Pv, ('comb', fv, yv))),
+             S.mk_comb(('const', 'conj', S.funs(B_, B_, B_)), ('comb', Pv, xv), S.mk_comb(('const', 'equals', S.funs(a_, a_, B_)), xv, yv)),
+             ('comb', ('var', 'R', S.fun(a_, B_)), xv)]
+    s2 = rng.choice(forms)
+    theta = {a_[1]: T0}
+    cands = [v for v in S.atoms(s2) if v[0] == 'svar']
+    chosen = [v for v in cands if rng.random() < 0.5] or [rng.choice(cands)]
+    sv2 = {v[1]: g2.gen(S.ty_subst(v[2], theta), rng.choice([0, 1])) for v in chosen}
+    inst2 = Inst()
+    for k_, v_ in sv2.items():
+        inst2[k_] = S.to_repo_term(v_)
+    wit2b = {'op': 'subst', 't': S.jsonable(s2), 'inst': {k_: S.jsonable(v_) for k_, v_ in sv2.items()}, 'var_inst': {}, 'route': 'ctor',
+             'note': 'type instantiation %s := %s follows from the instances only' % (a_[1], S.ty_str(T0) if hasattr(S, 'ty_str') else T0)}
+    try:
+        t2b = S.to_repo_term(s2)
+        r2 = t2b.subst(inst2)
+        want2 = S.tm_subst(S.tm_ty_subst(s2, theta), sv2, {})
+        ctx.count('subst_with_type_instantiation')
+        compare_result(ctx, 'subst', r2, want2, closed_typed(want2), wit2b, rng)
+    except TermException:
+        ctx.count('op_rejected:subst')
+    except Exception as e:
+        ctx.count('op_raised:subst:' + type(e).__name__)
     # ---- B3. subst_bound / beta_conv with possibly open argument, under a closing prefix
     A = g.rand_type()
     depth_prefix = rng.choice([0, 0, 1, 2])
